@@ -92,7 +92,8 @@ def write_saf(path, columns, ch_ids, fs, north_rot, eol="\n", ndat=None, ids_wri
                   "# a comment line",
                   "STA_CODE = HVMON-07"]
     if north_rot is not None:
-        lines.append(f"NORTH_ROT = {int(north_rot)}")
+        # (whole degrees as an integer; decimal / negative orientations as written)
+        lines.append(f"NORTH_ROT = {int(north_rot)}" if float(north_rot) == int(north_rot) and north_rot >= 0 else f"NORTH_ROT = {north_rot}")
     lines.append("UNITS = Counts")
     ids = list(enumerate(ch_ids)) if ids_written is None else ids_written
     for i, letter in ids:
